@@ -7,6 +7,7 @@ def run(ctx):
     cli.rule_dispatch(ctx, 'credulous')
     accept.rule_membership_answers(ctx, 'credulous')
     accept.rule_list_quantifiers(ctx, 'credulous')
+    accept.rule_status_certificate_pairing(ctx, 'credulous')
     accept.rule_every_listed_argument(ctx, 'credulous')
     accept.rule_certificate_shapes(ctx, 'credulous')
     provenance.rule_literal_provenance(ctx, 'credulous')
@@ -18,6 +19,7 @@ def run(ctx):
     progress.rule_state_machine(ctx)
     accept.rule_stage_layering(ctx, 'credulous')
     grounded.rule_grounded_propagation(ctx)
+    accept.rule_in_all_flags_polarity(ctx)
     cli.rule_encoder_selection(ctx)  # the CLI hands each solver the encoder of its base semantics, for every --encoding value
     ctx.assume("rustc's MIR and resolved callees; the tables stated in the property (DC-PR through the complete solver)")
     return (
